@@ -162,8 +162,14 @@ impl Literal {
         match (self, ty) {
             (Literal::True, Type::Bool) => true,
             (Literal::False, Type::Bool) => true,
-            (Literal::NumUnsigned(_, ty1), Type::Unsigned(ty2)) if ty1 == ty2 => true,
-            (Literal::NumSigned(_, ty1), Type::Signed(ty2)) if ty1 == ty2 => true,
+            // numbers must be representable in their type (they would be truncated otherwise):
+            (Literal::NumUnsigned(n, ty1), Type::Unsigned(ty2)) if ty1 == ty2 => {
+                ty1.max().map(|max| *n <= max).unwrap_or(true)
+            }
+            (Literal::NumSigned(n, ty1), Type::Signed(ty2)) if ty1 == ty2 => {
+                ty1.min().map(|min| *n >= min).unwrap_or(true)
+                    && ty1.max().map(|max| *n <= max).unwrap_or(true)
+            }
             (Literal::ArrayRepeat(elem, size1), Type::Array(elem_ty, size2)) => {
                 size1 == size2 && elem.is_of_type(checked, elem_ty)
             }
@@ -188,7 +194,12 @@ impl Literal {
                                 return false;
                             }
                         }
-                        return true;
+                        // every field of the struct must be given (exactly once, as the number of
+                        // fields is the same):
+                        return struct_def
+                            .fields
+                            .iter()
+                            .all(|(name, _)| fields.iter().any(|(f, _)| f == name));
                     }
                 }
                 false
@@ -208,10 +219,11 @@ impl Literal {
                             match (fields1, variant2) {
                                 (VariantLiteral::Unit, Variant::Unit(_)) => return true,
                                 (VariantLiteral::Tuple(fields1), Variant::Tuple(_, fields2)) => {
-                                    return fields1
-                                        .iter()
-                                        .zip(fields2.iter())
-                                        .all(|(f, ty)| f.is_of_type(checked, ty));
+                                    return fields1.len() == fields2.len()
+                                        && fields1
+                                            .iter()
+                                            .zip(fields2.iter())
+                                            .all(|(f, ty)| f.is_of_type(checked, ty));
                                 }
                                 _ => return false,
                             }
@@ -221,7 +233,8 @@ impl Literal {
                 false
             }
             (Literal::Range(min, max, num_ty), Type::Array(elem_ty, size)) => {
-                elem_ty.as_ref() == &Type::Unsigned(*num_ty) && max - min == *size as u64
+                elem_ty.as_ref() == &Type::Unsigned(*num_ty)
+                    && max.checked_sub(*min) == Some(*size as u64)
             }
             _ => false,
         }
@@ -477,10 +490,24 @@ impl Literal {
                 }
                 bits
             }
-            Literal::Struct(_, fields) => {
+            Literal::Struct(struct_name, fields) => {
+                // the bits follow the order of the fields in the struct definition, in whatever
+                // order the literal lists them:
                 let mut bits = vec![];
-                for (_, f) in fields {
-                    bits.extend(f.as_bits(checked, const_sizes))
+                match checked.struct_defs.get(struct_name) {
+                    Some(struct_def) => {
+                        for (field_name, _) in struct_def.fields.iter() {
+                            if let Some((_, f)) = fields.iter().find(|(name, _)| name == field_name)
+                            {
+                                bits.extend(f.as_bits(checked, const_sizes))
+                            }
+                        }
+                    }
+                    None => {
+                        for (_, f) in fields {
+                            bits.extend(f.as_bits(checked, const_sizes))
+                        }
+                    }
                 }
                 bits
             }
